@@ -267,6 +267,32 @@ def collect():
             pass
     T["frozen"] = frozen
 
+    # ------------------------------------------------------------------ scheme tables
+    # LegacyOpensslVersion.parse keeps its table of base versions in a function-local tuple
+    consts = vs.LegacyOpensslVersion.parse.__func__.__code__.co_consts
+    bases = [c for c in consts if isinstance(c, tuple) and c and all(isinstance(x, str) for x in c)]
+    if len(bases) != 1:
+        raise TranslatorError(f"cannot find the all_legacy_base tuple in LegacyOpensslVersion.parse: {bases!r}")
+    T["legacy_base"] = list(bases[0])
+    # cross-check by execution: the prefixes accepted by parse() among x.y.z with small components
+    for x in range(0, 4):
+        for y in range(0, 10):
+            for z in range(0, 12):
+                t = f"{x}.{y}.{z}"
+                ok = bool(vs.LegacyOpensslVersion.parse(t))
+                if ok != t.startswith(tuple(T["legacy_base"])):
+                    raise TranslatorError(f"all_legacy_base does not explain parse({t!r})")
+    import univers.debian as udeb
+    import univers.gentoo as ugentoo
+    co = dict(udeb.characters_order)
+    if not all(isinstance(k, str) and len(k) <= 1 and isinstance(v, int) for k, v in co.items()):
+        raise TranslatorError("debian.characters_order has an unexpected shape")
+    T["deb_order"] = co
+    sv = dict(ugentoo.suffix_value)
+    if not all(isinstance(k, str) and isinstance(v, int) for k, v in sv.items()):
+        raise TranslatorError("gentoo.suffix_value has an unexpected shape")
+    T["gentoo_suffix"] = sv
+
     # ------------------------------------------------------------------ range classes / registry
     rclasses = [
         v
@@ -468,6 +494,16 @@ def emit(T):
                 w(f"  | R_{ident(r)}, V_{ident(b)} => {v}")
         w(f"  | _, _ => {default}")
         w("  end.")
+    w("")
+    w("(* ---- scheme tables ---- *)")
+    w("Definition legacy_base : list string := " + coq_list([coq_str(x) for x in T["legacy_base"]]) + ".")
+    w("(* debian.characters_order: character code (None = the empty string) -> rank *)")
+    items = sorted(T["deb_order"].items(), key=lambda kv: kv[1])
+    w("Definition deb_order_empty : option nat := " + ("Some %d" % T["deb_order"][""] if "" in T["deb_order"] else "None") + ".")
+    w("Definition deb_order : list (nat * nat) := " + coq_list([f"({ord(k)}, {v})" for k, v in items if k != ""]) + ".")
+    w("(* gentoo.suffix_value, as signed integers *)")
+    w("Definition gentoo_suffix : list (string * (bool * nat)) := " + coq_list(
+        [f"({coq_str(k)}, ({coq_bool(v < 0)}, {abs(v)}))" for k, v in T["gentoo_suffix"].items()]) + ".")
     w("")
     return "\n".join(L) + "\n"
 
